@@ -4,9 +4,11 @@
 (* validated against the actions of KernelOutput, and the property clauses of  *)
 (* KernelOutput are evaluated over the recorded facts.                         *)
 (*                                                                             *)
-(* case  = [id, scheme, pre, ver, nruns, fs0, events, fin]                     *)
-(* event = [run, call, name, res, cls, fs, stray]   (fs = directory projected  *)
-(*          after the call: list of [name, by, w, content, inner])             *)
+(* case  = [id, scheme, pre, ver, split, nruns, fs0, events, fin]              *)
+(* event = [run, call, name, res, cls, fs, tmps, stray]  (the directory        *)
+(*          projected after the call: fs = final kernel files, list of [name,  *)
+(*          by, w, content, inner]; tmps = temporary files, list of [by,       *)
+(*          content, inner]; stray = number of other files)                    *)
 (* fin   = per run [res: "ok"|"error"|"crash"|"off", used: tag named by the    *)
 (*          generated PSy layer]                                               *)
 (*                                                                             *)
@@ -17,20 +19,27 @@
 (* implementation that keeps the property in another way).                     *)
 EXTENDS Naturals, Integers, Sequences, FiniteSets, TLC, Json, IOUtils
 
-CONSTANT SplitWrite
 Cases == JsonDeserialize(IOEnv.PV_CASES)
 
-VARIABLES scheme, pre, ver, fs, pc, idx, fd, used, seen, res, lastOp   \* KernelOutput
+VARIABLES scheme, pre, ver, split, fs, tmp, pc, idx, fd, used, seen, res, lastOp  \* KernelOutput
 VARIABLES cid, pos, off, fails, divs, tv
 M == INSTANCE KernelOutput WITH MaxRuns <- 3, RunCounts <- {1, 2, 3},
-        Schemes <- {"multiple", "single"}, Versions <- {1, 2}, PreChoices <- {0, 1, 2}
-mvars == <<scheme, pre, ver, fs, pc, idx, fd, used, seen, res, lastOp>>
+        Schemes <- {"multiple", "single"}, Versions <- {1, 2}, PreChoices <- {0, 1, 2},
+        SplitChoices <- BOOLEAN
+mvars == <<scheme, pre, ver, split, fs, tmp, pc, idx, fd, used, seen, res, lastOp>>
 vars  == <<mvars, cid, pos, off, fails, divs, tv>>
 
 TRange(s) == {s[i] : i \in DOMAIN s}
 FsOf(l) == [n \in {l[i].name : i \in DOMAIN l} |->
               LET e == CHOOSE x \in TRange(l) : x.name = n IN
               [by |-> e.by, w |-> TRange(e.w), content |-> e.content, inner |-> e.inner]]
+\* at most one temporary file per run is a model state; more is "stray"
+TmpOf(l) == [r \in M!Runs |->
+               IF \E x \in TRange(l) : x.by = r
+               THEN LET e == CHOOSE x \in TRange(l) : x.by = r IN
+                    [content |-> e.content, inner |-> e.inner]
+               ELSE M!NoTmp]
+TmpClean(l) == Cardinality({l[i].by : i \in DOMAIN l}) = Len(l)
 OpOf(e) == [run |-> e.run, call |-> e.call, name |-> e.name, res |-> e.res, cls |-> e.cls]
 RunsOf(c) == 1..c.nruns
 
@@ -42,15 +51,17 @@ StepFails(F, S, R) ==
 Init ==
   /\ cid \in 1..Len(Cases)
   /\ LET c == Cases[cid] IN
-     /\ scheme = c.scheme /\ pre = c.pre
+     /\ scheme = c.scheme /\ pre = c.pre /\ split = c.split
      /\ ver = [r \in M!Runs |-> c.ver[r]]
      /\ fs = FsOf(c.fs0)
-     /\ pc = [r \in M!Runs |-> IF r <= c.nruns THEN "create" ELSE "off"]
+     /\ pc = [r \in M!Runs |-> IF r > c.nruns THEN "off"
+                                 ELSE IF c.scheme = "single" THEN "mktemp" ELSE "create"]
      /\ res = [r \in M!Runs |-> IF r <= c.nruns THEN "run" ELSE "off"]
      \* the directory the runs start from must be the model's initial one
      /\ divs = IF FsOf(c.fs0) = (IF c.pre = 0 THEN <<>> ELSE
                    (M!Nm(0) :> [by |-> 0, w |-> {}, content |-> M!VName(c.pre), inner |-> 0]))
                THEN 0 ELSE 1
+  /\ tmp = [r \in M!Runs |-> M!NoTmp]
   /\ idx = [r \in M!Runs |-> 0]
   /\ fd = [r \in M!Runs |-> ""]
   /\ used = [r \in M!Runs |-> -1]
@@ -61,10 +72,11 @@ Init ==
 \* the recorded step IS the model's step of that run
 Conform(e) ==
   /\ ~off[e.run]
-  /\ e.stray = 0
+  /\ e.stray = 0 /\ TmpClean(e.tmps)
   /\ M!RunStep(e.run)
   /\ lastOp' = OpOf(e)
   /\ fs' = FsOf(e.fs)
+  /\ tmp' = TmpOf(e.tmps)
 
 Event ==
   /\ tv = "run" /\ pos <= Len(Cases[cid].events)
@@ -74,6 +86,7 @@ Event ==
            /\ UNCHANGED <<off, divs>>
         \/ /\ ~ENABLED Conform(e)
            /\ fs' = FsOf(e.fs)                       \* continue from the real directory
+           /\ tmp' = TmpOf(e.tmps)
            /\ lastOp' = OpOf(e)
            /\ off' = [off EXCEPT ![e.run] = TRUE]
            /\ divs' = divs + (IF off[e.run] THEN 0 ELSE 1)
@@ -83,7 +96,7 @@ Event ==
                                bypc |-> IF fs[e.name].by \in M!Runs
                                         THEN pc[fs[e.name].by] ELSE "done"]]
                       ELSE seen
-           /\ UNCHANGED <<scheme, pre, ver, pc, idx, fd, used, res>>
+           /\ UNCHANGED <<scheme, pre, ver, split, pc, idx, fd, used, res>>
      /\ fails' = fails \cup StepFails(fs', seen', RunsOf(c))
      /\ pos' = pos + 1
      /\ UNCHANGED <<cid, tv>>
